@@ -395,6 +395,11 @@ def float_monitors(chk, tier):
             with contextlib.redirect_stdout(io.StringIO()):
                 Hm = rs.randn(n, n) * 0.05
                 Hm = Hm + Hm.T
+                if kind in ("lindblad_ops", "lindblad_tensor", "closed") and (k // 6) % 2 == 1:
+                    # a complex Hermitian Hamiltonian (couplings with a phase); these kinds enter no basis context
+                    Bm = rs.randn(n, n) * 0.03
+                    Hm = Hm + 1j * (Bm - Bm.T)
+                    chk.count("float:complex_hamiltonian:" + kind)
                 ta = qr.TimeAxis(0.0, 30, 1.0)
                 A = rs.randn(n, n) + 1j * rs.randn(n, n)
                 rho0 = A.dot(A.conj().T)
